@@ -52,7 +52,33 @@ def tag(rnd, name=None, kind=None):
     if kind == "close":
         return "</%s>" % name
     a = rnd.choice(ATTRS) if rnd.random() < 0.4 else ""
+    if rnd.random() < 0.12:
+        a += odd_attr(rnd)
     return "<%s%s%s>" % (name, a, "/" if kind == "self" else "")
+
+
+ATTR_NAMES = ["class", "id", "style", "align", "colspan", "rowspan", "width", "height", "lang", "name", "group", "dir", "border",
+              "title", "perrow", "widths", "start", "value", "type", "cellspacing"]
+ATTR_VALUES = ["2007", "3", "-1", "0", "1.5", "", "\u00b2", "x y", "a:b", "1e3", "99999999999999999999", "0x10", "\u0663", " 7 ",
+               "true", "None", "%", "50%", "1px", "#", "{{{1}}}", "&#50;"]
+IMG_OPTS = ["200px", "x200px", "100x200px", "1x2x3px", "xxpx", "0px", "99999999999px", "px", "-5px", "200 px", "upright=1.2",
+            "upright", "upright=x", "border", "frameless", "frame", "thumb", "thumbnail=x.png", "link=", "link=http://e.org", "alt=x",
+            "page=2", "page=x", "lang=de", "class=3", "left", "none", "center", "baseline", "sub", "200px|300px", "x", ""]
+
+
+def odd_attr(rnd):
+    """an attribute whose value is not what its name suggests (numbers as class names, words as numbers ...)"""
+    v = rnd.choice(ATTR_VALUES)
+    q = rnd.choice(('"', '"', "'", ""))
+    return " %s=%s%s%s" % (rnd.choice(ATTR_NAMES), q, v, q)
+
+
+def image_link(rnd):
+    name = rnd.choice(("File:Pic.png", "Image:a.jpg", "Datei:B.svg", "File:BSicon_x.svg", "Media:m.ogg", "File:x.tif", "file:p.PNG"))
+    opts = [rnd.choice(IMG_OPTS) for _ in range(rnd.randint(0, 4))]
+    if rnd.random() < 0.5:
+        opts.append(rnd.choice(WORDS))
+    return "[[%s%s]]" % (name, "".join("|" + o for o in opts))
 
 
 def atom(rnd):
@@ -78,6 +104,8 @@ def atom(rnd):
         return "{{%s}}" % rnd.choice(TEMPLATE_NAMES)
     if x < 0.93:
         return "{{{%s}}}" % rnd.choice(("1", "x", "1|d", "", "{{{2}}}"))
+    if x < 0.945:
+        return image_link(rnd)
     if x < 0.96:
         return "[[%s%s]]" % (rnd.choice(WORDS), rnd.choice(("", "|lbl", "|thumb|200px|cap ''x''", "|", "||")))
     if x < 0.98:
